@@ -79,6 +79,12 @@ fn main() {
                 let x = unsafe { std::ptr::read_volatile(p.add(16 + (args.len() & 1))) };
                 println!("read {}", x);
             }
+            "libpanic" => {
+                // a panic raised in alloc on behalf of a /repo function must be attributed to /repo
+                install_panic_hook(false);
+                let r = guard(|| bio::data_structures::smallints::SmallInts::<u8, usize>::with_capacity(usize::MAX).len());
+                println!("{:?}", r);
+            }
             "leak" => {
                 let v = vec![7u8; 4096];
                 std::mem::forget(v);
